@@ -42,7 +42,7 @@ use std::panic::{catch_unwind, AssertUnwindSafe};
 use std::str::FromStr;
 
 const FIXTURE: &str = "rbx_dom_lua/src/allValues.json";
-const ENTRIES: [&str; 7] = ["str", "slice", "reader", "value", "bincode", "msgpack", "msgpack-named"];
+const ENTRIES: [&str; 9] = ["str", "slice", "reader", "value", "bincode", "bincode-reader", "msgpack", "msgpack-reader", "msgpack-named"];
 
 fn repo() -> String {
     std::env::var("VERIF_REPO").unwrap_or_else(|_| "/repo".to_string())
@@ -293,6 +293,15 @@ fn through(entry: &str, v: &Variant) -> Result<Variant, String> {
             "bincode" => {
                 let b = bincode::serialize(v).map_err(|e| format!("encode: {e}"))?;
                 bincode::deserialize::<Variant>(&b).map_err(|e| format!("decode: {e}"))
+            }
+            // the compact encodings decoded from an io::Read (no borrowed input available)
+            "bincode-reader" => {
+                let b = bincode::serialize(v).map_err(|e| format!("encode: {e}"))?;
+                bincode::deserialize_from::<_, Variant>(std::io::Cursor::new(b)).map_err(|e| format!("decode: {e}"))
+            }
+            "msgpack-reader" => {
+                let b = rmp_serde::to_vec(v).map_err(|e| format!("encode: {e}"))?;
+                rmp_serde::from_read::<_, Variant>(std::io::Cursor::new(b)).map_err(|e| format!("decode: {e}"))
             }
             "msgpack" => {
                 let b = rmp_serde::to_vec(v).map_err(|e| format!("encode: {e}"))?;
